@@ -289,7 +289,7 @@ func checkC01(c *Ctx, r *Report) {
 	ruleHelperShape(c, r, "C01.e", helperShape{Fn: "gast.IsFuncDeclReceiverForStruct", AllowedCalls: []string{"builtin.len"}, MustFields: []string{"Recv", "Name"},
 		Why: "a method belongs to a controller iff its receiver type (T or *T) is named exactly like the struct"})
 
-	ruleEarlyExitInventory(c, r, "C01.a", 10, "core/visitors", "core/metadata", "core/arbitrators", "core/pipeline")
+	ruleEarlyExitInventory(c, r, "C01.a", 10, "core/visitors", "core/metadata", "core/arbitrators", "core/pipeline", "core/annotations")
 	ruleErrDrops(c, r, "C01.a", "core/visitors", "core/metadata", "graphs")
 	ruleIRWriters(c, r, "C01.d", "definitions.RouteMetadata", "definitions.ControllerMetadata", "definitions.MethodHideOptions", "definitions.DeprecationOptions", "definitions.RestMetadata")
 	// every element filter in these packages is a reviewed one
